@@ -43,6 +43,15 @@ VALUES ($1, $2, $3, $4, NOW())`, fp, tp, name, value)
 	return err
 }
 
+// forgetSetting clears a recorded value before the tables of its group are altered again: a run interrupted
+// between the ALTERs must not leave the old value recorded while some tables already carry the new one.
+func forgetSetting(db clickhouse.Conn, name string, recorded string) error {
+	if recorded == "" {
+		return nil
+	}
+	return putSetting(db, "rotate", name, "")
+}
+
 func rotateTables(db clickhouse.Conn, clusterName string, distributed bool, days []RotatePolicy, minTTL time.Duration,
 	insertTimeExpression string, dropTTLExpression, settingName string,
 	logger logger.ILogger, tables ...string) error {
@@ -70,6 +79,9 @@ func rotateTables(db clickhouse.Conn, clusterName string, distributed bool, days
 
 	val, err := getSetting(db, distributed, "rotate", settingName)
 	if err != nil || val == rotateTTLStr {
+		return err
+	}
+	if err = forgetSetting(db, settingName, val); err != nil {
 		return err
 	}
 	for _, table := range tables {
@@ -100,6 +112,9 @@ func storagePolicyUpdate(db clickhouse.Conn, clusterName string,
 	}
 	val, err := getSetting(db, distributed, "rotate", setting)
 	if err != nil || storagePolicy == "" || val == storagePolicy {
+		return err
+	}
+	if err = forgetSetting(db, setting, val); err != nil {
 		return err
 	}
 	for _, tbl := range tables {
